@@ -297,10 +297,10 @@ def finish(prop, mod, tier, seed, outs, extra, t0):
     # evidence -----------------------------------------------------------------------
     level = 'proof'
     status = 'held'
-    if faults:
+    if violations:
+        status = 'violation'       # a refuted obligation outranks a checker complaint
+    elif faults:
         status = 'fault'
-    elif violations:
-        status = 'violation'
     elif undecided:
         status = 'undecided'
         level = 'other'
